@@ -213,3 +213,112 @@ func TestC03Wide(t *testing.T) {
 }
 
 func init() { registerReplay("C03", "wide", CheckC03Wide) }
+
+/* C03 (forget): "the record of innovations is forgotten when the generation ends", observed through behaviour instead of through
+   the accessor. After some turnovers a copy of one organism's genome is split by an add-node mutation against the population's
+   record (the innovation is recorded); the population is turned over once by the real executor; then another copy of the same
+   genome receives the same mutation (same seed, so the same gene is split). The second split happens in a later generation:
+   it must get a new node id and new innovation numbers, whatever the library keeps besides the list that Innovations() shows. */
+func CheckC03Forget(sc Scenario, rec *Rec) error {
+	opts := sc.Opts.Build()
+	pop, err := buildPopulation(sc, opts)
+	if err == errSkipScenario {
+		rec.Class("skipped: constructor outside the domain (gene-less random genome / failing turnover before the checkpoint)")
+		return nil
+	}
+	if err != nil {
+		return err
+	}
+	ctx := opts.NeatContext()
+	exec := newExecutor(opts)
+	turnover := func(e int) error {
+		n := len(pop.Organisms)
+		for i, o := range pop.Organisms {
+			o.Fitness = fitnessOf(sc.Fit, e, i, n, o.Genotype)
+		}
+		return exec.NextEpoch(ctx, e, pop)
+	}
+	for e := 0; e < sc.Epochs; e++ {
+		if err := turnover(e); err != nil {
+			rec.Class("history ended by a failing turnover (outside this property, see C02)")
+			return nil
+		}
+	}
+	orig := pop.Organisms[int(sc.Seed)%len(pop.Organisms)].Genotype
+	split := func(id int) (ok bool, node int, numbers []int64, err error) {
+		dup, err := orig.VerifDuplicate(id)
+		if err != nil {
+			return false, 0, nil, fmt.Errorf("duplicate returned error %v", err)
+		}
+		old := map[int64]bool{}
+		for _, g := range dup.Genes {
+			old[g.InnovationNum] = true
+		}
+		nodes := map[int]bool{}
+		for _, n := range dup.Nodes {
+			nodes[n.Id] = true
+		}
+		seedLibrary(sc.Seed + 5)
+		ok, err = dup.VerifMutateAddNode(pop, pop, opts)
+		if err != nil || !ok {
+			return false, 0, nil, err
+		}
+		for _, n := range dup.Nodes {
+			if !nodes[n.Id] {
+				node = n.Id
+			}
+		}
+		for _, g := range dup.Genes {
+			if !old[g.InnovationNum] {
+				numbers = append(numbers, g.InnovationNum)
+			}
+		}
+		return true, node, numbers, nil
+	}
+	ok1, node1, nums1, err := split(100001)
+	if err != nil {
+		return fmt.Errorf("add-node on a copy of an organism's genome returned error %v", err)
+	}
+	if !ok1 {
+		rec.Class("probe mutation did not succeed")
+		return nil
+	}
+	if len(pop.Innovations()) == 0 {
+		return fmt.Errorf("a successful add-node mutation (node %d, genes %v) left no innovation on record", node1, nums1)
+	}
+	if err := turnover(sc.Epochs); err != nil {
+		rec.Class("history ended by a failing turnover (outside this property, see C02)")
+		return nil
+	}
+	ok2, node2, nums2, err := split(100002)
+	if err != nil {
+		return fmt.Errorf("add-node on a copy of an organism's genome returned error %v", err)
+	}
+	if !ok2 {
+		rec.Class("probe mutation did not succeed")
+		return nil
+	}
+	rec.Class("same split repeated one generation later")
+	rec.NonTrivial(hashOf(sc.Epochs, len(pop.Organisms), node1, node2, sc.Opts.Parallel))
+	maxNum1 := int64(0)
+	for _, n := range nums1 {
+		if n > maxNum1 {
+			maxNum1 = n
+		}
+	}
+	if node2 <= node1 {
+		return fmt.Errorf("a gene was split in one generation (new node %d, genes %v) and the same gene of the same genome was split again one generation later: the second split received the node id %d, which is not a new one - the innovation of the earlier generation was not forgotten", node1, nums1, node2)
+	}
+	for _, n := range nums2 {
+		if n <= maxNum1 {
+			return fmt.Errorf("a gene was split in one generation (new node %d, genes %v) and the same gene of the same genome was split again one generation later: the second split received the innovation numbers %v, not new ones - the innovation of the earlier generation was not forgotten", node1, nums1, nums2)
+		}
+	}
+	return nil
+}
+
+func TestC03Forget(t *testing.T) {
+	runProp(t, "C03", "forget", 300, 6000, genScenario(ScenarioCfg{MaxEpochs: 6, Structural: true, Parallel: 1, NoSwitch: true, MaxPop: 20}), CheckC03Forget)
+}
+
+func init() { registerReplay("C03", "forget", CheckC03Forget) }
